@@ -194,11 +194,11 @@ def run(rep, tier):
     cases = G.gen_cases(r, tier)
     r.shuffle(cases)
     # invariant and setUp cases first (they carry the runner-level statements), then the rest within the budget
-    cases.sort(key=lambda c: c["family"] not in ("invariant", "setup", "depth_multi", "stuck"))
+    cases.sort(key=lambda c: c["family"] not in ("invariant", "setup", "depth_multi", "stuck", "stuck_setup"))
     res = l3.run_pool(worker, cases, timeout=240, total_timeout=420 if tier == "quick" else 1100)
     rep.coverage["l3_tasks"] = [[c["family"], json.dumps(c["params"]), " ".join(c["options"]), st, (v or {}).get("seconds") if st == "ok" else None] for c, (st, v) in zip(cases, res)]
     model_calls, model_expect = [], []
-    depth_calls, stuck_calls = [], []
+    depth_calls, stuck_calls, setup_calls = [], [], []
     for case, (st, val) in zip(cases, res):
         rep.count("l3_run", st)
         if st != "ok":
@@ -222,6 +222,18 @@ def run(rep, tier):
         rep.count("family", case["family"])
         rep.count("options", " ".join(case["options"]))
         rep.count("outcome", f"{case['family']}:{status}:{'+'.join(w for w in warns if w in REPORTED) or 'no-incompleteness-warning'}:{'reachable' if reaching else 'unreachable'}")
+        if case["family"] == "stuck_setup":
+            text = val["out"] + val["err"]
+            seen = 0 if status is not None else 2 if "Multiple paths were found" in text else 1 if "No successful path found" in text else -1
+            # setup_select on the single explored path: no error + stuck (sub-call) / error + stuck (top level)
+            setup_calls.append((("c03_setup", [1, 2 if case["params"]["where"] == "call" else 3, 1]), seen, full))
+            if status == "PASS" and reaching and "internal_error" not in warns:
+                fail_or_known(rep, "failing-input",
+                              f"stuck_setup {case['params']}: [PASS] {sig} without any internal-error report although the only path of setUpSymbolic was stopped by an unsupported feature ({case['params']['kind']} in {case['params']['where']}) and `{reaching[0]}` ends in Panic(1) on the reference interpreter",
+                              case=full, sig={"kind": "stuck-path-pass", "family": "stuck_setup", "where": case["params"]["where"]})
+            elif status is None and seen == -1:
+                rep.fail("broken-tie", f"stuck_setup {case['params']}: no verdict and no setUp failure message: {text[-400:]}", case=full)
+            continue
         if status is None and case["family"] != "setup":
             rep.fail("broken-tie", f"halmos printed no verdict for {sig} with {case['options']}: {val['out'][-300:]} {val['err'][-300:]}", case=full)
             continue
@@ -299,6 +311,12 @@ def run(rep, tier):
                 rep.count("runner_model", f"stuck:{full['params']['where']}:model_exit={mo[0] if mo else None}:halmos_exit={real}")
                 if mo is None or mo[0] != real:
                     rep.fail("broken-tie", f"stuck {full['params']}: run_test model predicts exit code {mo[0] if mo else None} for [normal path; path stopped by an internal error], halmos returned {real}", case=full)
+        if setup_calls:
+            outs = m.batch([c for c, _, _ in setup_calls])
+            for (c, seen, full), mo in zip(setup_calls, outs):
+                rep.count("runner_model", f"stuck_setup:{full['params']['where']}:model={mo[0] if mo else None}:halmos={seen}")
+                if mo is None or mo[0] != seen:
+                    rep.fail("broken-tie", f"stuck_setup {full['params']}: setup_select model says {mo} (0 a path is selected / 1 none / 2 multiple), halmos: {seen}", case=full)
     if m2 is not None and depth_calls:
         outs = m2.batch([c for c, _, _ in depth_calls])
         for (c, want, full), mo in zip(depth_calls, outs):
@@ -311,9 +329,9 @@ def run(rep, tier):
         checker_cmd="make -C coq Props/C10.vo (coq_makefile, coqc 8.16.1) after regenerating coq/Gen/GenJumpi.v and GenCutWarn.v from src/halmos/sevm.py, GenRunTest.v from src/halmos/__main__.py and GenLogFilter.v from src/halmos/logs.py",
         trusted_base=common.TRUSTED_BASE_COMMON + ["the fabricated forge artifacts + stub forge (harness/l3.py) and the extracted reference interpreter coq/Spec/Evm.v as EVM oracle"],
         assumptions=ASSUMPTIONS,
-        rule="cases = (family, parameters, halmos options): counted loops in three syntactic forms (while / negated exit test / count-down) with trip count const n, pinned by a require, the argument, arg & 7, arg % 6; planted Panic(1) when the counter equals K below/at/above --loop in {1,2,4}; a 20-iteration concrete loop under --depth; 2^k-path branch ladders under --width; setUpSymbolic with a loop; an invariant target with a loop; several tests with the same two-path body under --depth in one run (overloads of one name, another name, the same signature in a second contract), judged per test; a path stopped by an unsupported feature (symbolic memory offset / keccak size) in the test body, in a CALL / STATICCALL / DELEGATECALL callee, in a constructor; "
+        rule="cases = (family, parameters, halmos options): counted loops in three syntactic forms (while / negated exit test / count-down) with trip count const n, pinned by a require, the argument, arg & 7, arg % 6; planted Panic(1) when the counter equals K below/at/above --loop in {1,2,4}; a 20-iteration concrete loop under --depth; 2^k-path branch ladders under --width; setUpSymbolic with a loop; an invariant target with a loop; several tests with the same two-path body under --depth in one run (overloads of one name, another name, the same signature in a second contract), judged per test; a path stopped by an unsupported feature (symbolic memory offset / keccak size) in the test body, in a CALL / STATICCALL / DELEGATECALL callee, in a constructor, and in setUp (body / callee); "
              "non-trivial = some concrete execution reaches the planted failure on the reference interpreter (or the loop is concrete); distinct by hash of the case",
-        partial="the L3 tie observes incompleteness only through the planted failure; --depth cuts inside setUp / targets are observed at L3 only; theorem C10_depth_cut_reported_across_contracts_refuted documents the cross-contract loss of the --depth warning",
+        partial="the L3 tie observes incompleteness only through the planted failure; --depth cuts inside setUp / targets are observed at L3 only; theorems C10_depth_cut_reported_across_contracts_refuted and C10_setup_stuck_path_selected_refuted document the two known findings",
     )
 
 
